@@ -103,7 +103,7 @@ Proof.
     + destruct f; try exact I.
       destruct Hm as [[n Hn]|[n [o Hn]]]; [left; exists n|right; exists n, o]; intros k; rewrite Hrv; apply Hn.
   - (* globals: __init__ runs first *)
-    destruct Hsmall as [(Hok & Hepi & Hgok & Hnd & Hgl) Hms]. specialize (Hms M Hcomp).
+    destruct Hsmall as [(Hok & Hgok & Hnd & Hgl) Hms]. specialize (Hms M Hcomp).
     set (ife := {| fe_name := ini; fe_arity := 0; fe_off := 0; fe_len := length ibs; fe_locals := 0 |}) in *.
     assert (Hnz : Nat.eqb (m_nglobals M) 0 = false).
     { rewrite HM. cbn [m_nglobals]. destruct (pglobals pr); [contradiction|reflexivity]. }
